@@ -779,6 +779,8 @@ impl Store {
             }
             (None, ValueEntry::Cas(_, _), false) => {
                 // no value present, we cannot insert cas value if version != 0 and insertion is not forced
+                // remove any nodes created above, a rejected request must not leave empty nodes behind
+                Store::ndelete(&mut self.data, path, None, &mut None)?;
                 return Err(StoreError::CasVersionMismatch);
             }
             (Some(ValueEntry::Plain(current)), ValueEntry::Plain(val), _) => {
